@@ -438,19 +438,20 @@ char * tN2kDeviceList::tInternalDevice::InitConfigurationInformation(size_t &_Ma
   if ( ConfI==0 ) {
     ConfISize=_ConfISize;
     ConfI=(char*)(ConfISize>0?malloc(ConfISize):0);
-    if ( _ManISize>0 ) {
-      ManufacturerInformation=ConfI;
-      ManufacturerInformation[0]='\0';
-    } else ManufacturerInformation=0;
-    if ( _InstDesc1Size>0 ) {
-      InstallationDescription1=ConfI+_ManISize;
-      InstallationDescription1[0]='\0';
-    } else InstallationDescription1=0;
-    if ( _InstDesc2Size>0 ) {
-      InstallationDescription2=ConfI+_ManISize+_InstDesc1Size;
-      InstallationDescription2[0]='\0';
-    } else InstallationDescription2=0;
   }
+  // Field sizes may differ from the previous ones also when the old block is kept.
+  if ( _ManISize>0 ) {
+    ManufacturerInformation=ConfI;
+    ManufacturerInformation[0]='\0';
+  } else ManufacturerInformation=0;
+  if ( _InstDesc1Size>0 ) {
+    InstallationDescription1=ConfI+_ManISize;
+    InstallationDescription1[0]='\0';
+  } else InstallationDescription1=0;
+  if ( _InstDesc2Size>0 ) {
+    InstallationDescription2=ConfI+_ManISize+_InstDesc1Size;
+    InstallationDescription2[0]='\0';
+  } else InstallationDescription2=0;
   ConfILoaded=true;
   return ConfI;
 }
